@@ -144,20 +144,41 @@ def r3_authority_table(ctx):
     F, R = ctx.F, ctx.R
     b = F.one(r"^jsonrpsee_server::middleware::http::authority::Authority::from_http_request$")
     R.fn(b)
-    hh = [l for l in b.locals_named("host_header")]
-    uu = [l for l in b.locals_named("uri")]
-    if len(hh) != 1 or len(uu) != 1:
-        raise AnchorLost("locals host_header / uri in from_http_request")
+    # the two inputs of the decision are found by what they are computed from (the Host header lookup, the URI's
+    # authority), not by their names
+    tr0 = ctx.tracer(follow_callers=False, follow_fields=False)
+
+    def source_of(op):
+        res = set()
+        for lf in tr0.origins(b, op):
+            if lf.kind != "call":
+                continue
+            if re.search(r"Option::<T>::map$", lf.detail["callee"]):
+                for l2 in tr0.origins(b, lf.detail["args"][0]):
+                    if l2.kind == "call":
+                        res.add(l2.detail["callee"])
+            else:
+                res.add(lf.detail["callee"])
+        return res
+
     start = None
+    AUTH_OPT = "std::option::Option<std::result::Result<jsonrpsee_server::middleware::http::authority::Authority,"
     for bi, blk in enumerate(b.blocks):
         for si, st in enumerate(blk["st"]):
             if st["s"] == "assign" and st["rv"]["k"] == "agg" and st["rv"]["ak"] == "tuple" and len(st["rv"]["ops"]) == 2:
                 ps = [op_place(o) for o in st["rv"]["ops"]]
-                if all(p_ is not None for p_ in ps) and hh[0] in flow._local_copies_back(b, ps[0]["l"], 6) and uu[0] in flow._local_copies_back(b, ps[1]["l"], 6):
-                    start = (bi, si)
-                    tl = [ps[0]["l"], ps[1]["l"]]
+                if all(p_ is not None and b.locals[p_["l"]]["ty"].startswith(AUTH_OPT) for p_ in ps):
+                    srcs = [source_of(o) for o in st["rv"]["ops"]]
+                    if any(re.search(r"read_header_value$", x) for x in srcs[0]) and any(re.search(r"Uri::authority$", x) for x in srcs[1]):
+                        start = (bi, si)
+                        tl = [ps[0]["l"], ps[1]["l"]]
+                    elif any(re.search(r"read_header_value$", x) for x in srcs[1]) and any(re.search(r"Uri::authority$", x) for x in srcs[0]):
+                        start = (bi, si)
+                        tl = [ps[1]["l"], ps[0]["l"]]
     if start is None:
-        raise AnchorLost("the (host_header, uri) match in from_http_request")
+        raise AnchorLost("the (Host header, URI authority) match in from_http_request")
+    hh = [x for x in flow._local_copies_back(b, tl[0], 6) if x != tl[0]] or [tl[0]]
+    uu = [x for x in flow._local_copies_back(b, tl[1], 6) if x != tl[1]] or [tl[1]]
     it = Interp(F, call_handlers=[RX_EQ])
     OPT = "std::option::Option"
     RES = "std::result::Result"
@@ -176,7 +197,11 @@ def r3_authority_table(ctx):
                 n += 1
                 a1 = Sym("A")
                 a2 = Sym("A") if same else Sym("B")
-                env = {hh[0]: [val(hk, a1)], uu[0]: [val(uk, a2)], tl[0]: [val(hk, a1)], tl[1]: [val(uk, a2)]}
+                env = {tl[0]: [val(hk, a1)], tl[1]: [val(uk, a2)]}
+                for x in hh:
+                    env[x] = [val(hk, a1)]
+                for x in uu:
+                    env[x] = [val(uk, a2)]
                 try:
                     got = it.run_from(b, start[0], start[1], env)
                 except Unsupported as e:
